@@ -7,6 +7,12 @@ VERIF = os.path.dirname(os.path.dirname(os.path.abspath(__file__)))
 
 # id -> (technique, level text, level note, design ref)   -- only checks that exist under mc/checks are claimed
 CHECKS = {
+    "C03": ("bounded exhaustive enumeration of specification-valid instances generated from a frozen spec model (deviation bound 1, thorough 2)",
+            "For every type of STIX 2.0 and 2.1 (objects, observables, every pre-defined extension, embedded types, bundles): the minimal and maximal instance, minimal + each property x every value of its alphabet (all vocabulary entries, every legal reference target type, boundary numbers, false/0/'' values, timestamp spellings, long and repeated lists, nested dictionaries), unregistered extension-definition extensions in both orders, thorough: all pairs of optional properties; each in 3-4 entry contexts (parse(dict), parse(text), bundle member, observed-data member) and, for minimal/maximal instances, one granular-marking variant per addressable path. Strict parse must succeed and the include-optional-defaults serialization must contain every input property with an equal value (timestamps as exact instants), adding only spec-default optionals (compared recursively).",
+            "trusted: frozen spec model mc/spec (bootstrapped once from the library tables, audited by hand, no stricter than the specification); generator output is re-validated by the frozen validator before use; stix2patterns for pattern syntax", "DESIGN.md §3 C03"),
+    "C08": ("bounded exhaustive enumeration of objects x paths x entry points against an independent path resolver",
+            "For every type of both versions the minimal and maximal instance and every generated instance storing a falsy value, equal list elements, a list with two-digit indices or hyphen-extended sibling keys: every path an independent walker finds in the JSON form (properties, list indices, nested keys, embedded objects, extensions, container members) and up to 8 kinds of near-miss paths derived from it are passed through 16 entry points (parse, constructor, get_markings/is_marked/add/set/remove/clear on the object and on its dict form); accepted <=> the walker resolves the selector.",
+            "trusted: mc/spec/harness.py:selector_paths/resolves; only selectors the selector syntax can spell are asserted on object forms", "DESIGN.md §3 C08"),
     "C19": ("explicit-state BFS over registration histories on the real process-wide registries with a registry reference model in lock-step",
             "Every history of length <=2 over the full event menu (4 kinds incl. extension-definition flavours and extension_name objects x 2 spec versions x 14 name classes x 6 property-name classes; 146 events) and up to length 3 (thorough 4) over the valid/duplicate core menu is executed on the real decorators; after every event the complete registry contents are compared with the model (exactly the previous registry plus that name for that version; refusals change nothing; caller tables untouched) and every name of the menu is probed under both versions through parse, parse_observable, MarkingDefinition and extensions, together with the built-in answers. Registries are restored from a snapshot before each history.",
             "trusted: registry model and naming rules in mc/checks/c19_registration.py (only unambiguous rules asserted); states merged on the set of registered (version, category, name)", "DESIGN.md §3 C19"),
